@@ -97,6 +97,7 @@ func Load(repo string, extraContracts string) (*Loaded, error) {
 
 type OblResult struct {
 	O      *Obligation
+	C      *Contract
 	R      *SolveResult
 	File   string
 	Status string // proved failed cover-ok cover-failed unproved-skip
@@ -162,6 +163,7 @@ func verifyAll(L *Loaded, sel func(c *Contract) bool, workDir string, timeout ti
 		fr   *FuncResult
 		o    *Obligation
 		file string
+		qf   string
 	}
 	var jobs []job
 	for _, c := range L.CS.Order {
@@ -190,7 +192,11 @@ func verifyAll(L *Loaded, sel func(c *Contract) bool, workDir string, timeout ti
 			}
 			script := e.tb.Script(q, gv, false)
 			f := writeScript(workDir, o.Name, script)
-			jobs = append(jobs, job{fr, o, f})
+			j := job{fr: fr, o: o, file: f}
+			if qf := e.QueryQF(fr, o); qf != nil {
+				j.qf = writeScript(workDir, o.Name+".qf", e.tb.Script(qf, nil, false))
+			}
+			jobs = append(jobs, j)
 		}
 	}
 	results := make([]*OblResult, len(jobs))
@@ -202,8 +208,8 @@ func verifyAll(L *Loaded, sel func(c *Contract) bool, workDir string, timeout ti
 			defer wg.Done()
 			sem <- struct{}{}
 			defer func() { <-sem }()
-			r := Solve(j.file, timeout, all, nil)
-			or := &OblResult{O: j.o, R: r, File: j.file}
+			r := Solve(j.file, j.qf, timeout, all)
+			or := &OblResult{O: j.o, C: j.fr.Contract, R: r, File: j.file}
 			switch {
 			case j.o.Cover && r.Status == "sat":
 				or.Status = "cover-ok"
